@@ -61,11 +61,22 @@ type ArrayV struct {
 	sym  *term.Term // array term (scalar arrays only) — when set, conc is unused
 	id   int
 	ro   bool // backing store of a string constant
+	// writes at symbolic indices into arrays of non-scalar (immutable) elements: an ordered
+	// overlay; reads fork on index equality
+	symW []symWrite
+}
+
+type symWrite struct {
+	idx *term.Term
+	val Value
 }
 
 func (a *ArrayV) slotGet(m *Machine, i int) Value {
 	if i < 0 || i >= a.n {
 		panic(fmt.Sprintf("engine: array slot %d out of range %d", i, a.n))
+	}
+	if len(a.symW) > 0 {
+		return a.getOverlay(m, m.T.Const(64, uint64(i)))
 	}
 	if a.sym != nil {
 		return m.T.Select(a.sym, m.T.Const(64, uint64(i)))
@@ -84,6 +95,10 @@ func (a *ArrayV) slotGet(m *Machine, i int) Value {
 func (a *ArrayV) slotSet(m *Machine, i int, v Value) {
 	if i < 0 || i >= a.n {
 		panic(fmt.Sprintf("engine: array slot %d out of range %d", i, a.n))
+	}
+	if len(a.symW) > 0 {
+		a.symW = append(a.symW, symWrite{m.T.Const(64, uint64(i)), v})
+		return
 	}
 	if a.sym != nil {
 		a.sym = m.T.Store(a.sym, m.T.Const(64, uint64(i)), v.(*term.Term))
@@ -113,9 +128,45 @@ func (a *ArrayV) symTerm(m *Machine) *term.Term {
 	return a.sym
 }
 
+// getOverlay reads an element of a non-scalar array that has writes at symbolic indices: the
+// newest matching write wins; which write matches is decided by forking on index equality.
+func (a *ArrayV) getOverlay(m *Machine, idx *term.Term) Value {
+	for k := len(a.symW) - 1; k >= 0; k-- {
+		if m.branch(m.T.Eq(idx, a.symW[k].idx)) {
+			return a.symW[k].val
+		}
+	}
+	if idx.IsConst() {
+		if v, ok := a.conc[int(idx.Val)]; ok {
+			return v
+		}
+	} else {
+		keys := make([]int, 0, len(a.conc))
+		for k := range a.conc {
+			keys = append(keys, k)
+		}
+		sort.Ints(keys)
+		for _, k := range keys {
+			if m.branch(m.T.Eq(idx, m.T.Const(64, uint64(k)))) {
+				return a.conc[k]
+			}
+		}
+	}
+	if a.def != nil {
+		return a.def
+	}
+	panic(unsupported("symbolic index into an array of aggregate elements"))
+}
+
 func (a *ArrayV) getSym(m *Machine, idx *term.Term) Value {
 	if idx.IsConst() {
 		return a.slotGet(m, int(idx.Val))
+	}
+	if a.w == 0 {
+		if a.def == nil {
+			panic(unsupported("symbolic index into an array of aggregate elements"))
+		}
+		return a.getOverlay(m, idx)
 	}
 	return m.T.Select(a.symTerm(m), idx)
 }
@@ -123,6 +174,13 @@ func (a *ArrayV) getSym(m *Machine, idx *term.Term) Value {
 func (a *ArrayV) setSym(m *Machine, idx *term.Term, v Value) {
 	if idx.IsConst() {
 		a.slotSet(m, int(idx.Val), v)
+		return
+	}
+	if a.w == 0 {
+		if a.def == nil {
+			panic(unsupported("symbolic index into an array of aggregate elements"))
+		}
+		a.symW = append(a.symW, symWrite{idx, v})
 		return
 	}
 	a.sym = m.T.Store(a.symTerm(m), idx, v.(*term.Term))
@@ -312,7 +370,7 @@ func (m *Machine) copyVal(v Value) Value {
 		}
 		return n
 	case *ArrayV:
-		n := &ArrayV{elem: x.elem, w: x.w, n: x.n, def: x.def, sym: x.sym, id: m.newID()}
+		n := &ArrayV{elem: x.elem, w: x.w, n: x.n, def: x.def, sym: x.sym, id: m.newID(), symW: append([]symWrite(nil), x.symW...)}
 		if x.conc != nil {
 			n.conc = make(map[int]Value, len(x.conc))
 			for k, e := range x.conc {
@@ -352,6 +410,7 @@ func (m *Machine) assign(c Container, i int, v Value) {
 				return
 			}
 			old.def, old.sym = x.def, x.sym
+			old.symW = append([]symWrite(nil), x.symW...)
 			old.conc = nil
 			if x.conc != nil {
 				old.conc = make(map[int]Value, len(x.conc))
